@@ -12,7 +12,9 @@ META = {
                  "refresher and error handler; seeded random real runs trace-validated by TLC",
     "level_text": "TLC checks for 0..4 services, every outcome vector over {nil, err, panic} (and over 12 outcome KINDS - "
                   "context.DeadlineExceeded/Canceled, wrapped, joined, io.EOF, panic with string/error/nil - completely for "
-                  "<= 2 services, one non-plain kind at a time beyond) and every signal script (0..2 ignored "
+                  "<= 2 services, one non-plain kind at a time beyond), every registration plan (all splits of the services "
+                  "into Add calls, fresh slice or the caller's reused buffer, kept / zeroed / overwritten after Add, empty "
+                  "Add calls) and every signal script (0..2 ignored "
                   "signals, one shutdown signal, 0..1 trailing signal at every point of the shutdown) that Shutdown is called at "
                   "most once per service, in reverse registration order, on every service, nothing before the first shutdown "
                   "signal, nothing after the return, status success iff all outcomes nil, and that Handle returns; for the "
@@ -30,7 +32,7 @@ META = {
                   "to services are not constrained (the statement is silent).",
 }
 
-SIG_INV = ["STypeOK", "AtMostOnce", "NothingBeforeShutdownSignal", "ReverseOrder", "AtReturn", "StatusOnlyAtReturn"]
+SIG_INV = ["Registered", "STypeOK", "AtMostOnce", "NothingBeforeShutdownSignal", "ReverseOrder", "AtReturn", "StatusOnlyAtReturn"]
 RW_INV = ["WTypeOK", "OneRefreshPerTick", "CtxFromConstructor", "ErrorsHandledOnce", "ScheduleConsulted",
           "NoRefreshAfterShutdown", "DoneClosedFirst", "WindowNeverTicks", "ShutdownResult"]
 PLAIN = '{"nil", "err", "panic"}'
@@ -40,13 +42,23 @@ KINDS = ('{"nil", "err", "deadline", "canceled", "wdeadline", "wcanceled", "join
 PANICS = '{"panic", "panicerr", "panicdl", "panicnil"}'
 
 
-def sig_consts(maxn, maxpre=2, maxtrail=1, panic_aborts=False, kinds=False):
+def sig_consts(maxn, maxpre=2, maxtrail=1, panic_aborts=False, kinds=False, reg=False, aliases=False,
+               outcomes=None, shut='{"INT", "QUIT", "TERM"}'):
     """kinds=True: the full alphabet of outcome kinds for up to 2 services, one
-    non-plain kind at a time (mixed with nil/err/panic) for more."""
-    return {"MaxServices": maxn, "Outcomes": KINDS if kinds else PLAIN, "PlainKinds": PLAIN,
-            "FullUpTo": 2 if kinds else 100, "PanicKinds": PANICS, "OtherSigs": '{"HUP", "USR1"}',
-            "ShutSigs": '{"INT", "QUIT", "TERM"}', "MaxPre": maxpre, "TrailSigs": '{"HUP", "INT", "TERM"}',
-            "MaxTrail": maxtrail, "PanicAborts": "TRUE" if panic_aborts else "FALSE"}
+    non-plain kind at a time (mixed with nil/err/panic) for more.
+    reg=True: every registration plan (all splits of 1..n into Add calls, fresh
+    slice or reused buffer, kept/zeroed/overwritten afterwards, with and
+    without empty Add calls); otherwise one Add per service."""
+    c = {"MaxServices": maxn, "Outcomes": outcomes or (KINDS if kinds else PLAIN), "PlainKinds": PLAIN,
+         "FullUpTo": 2 if kinds else 100, "PanicKinds": PANICS, "OtherSigs": '{"HUP", "USR1"}',
+         "ShutSigs": shut, "MaxPre": maxpre, "TrailSigs": '{"HUP", "INT", "TERM"}',
+         "MaxTrail": maxtrail, "PanicAborts": "TRUE" if panic_aborts else "FALSE",
+         "RegSplits": '{"any"}' if reg else '{"each"}',
+         "RegBufs": '{"fresh", "reuse"}' if reg else '{"fresh"}',
+         "RegAfters": '{"keep", "zero", "decoy"}' if reg else '{"keep"}',
+         "RegEmpties": "{FALSE, TRUE}" if reg else "{FALSE}",
+         "AddAliases": "TRUE" if aliases else "FALSE"}
+    return c
 
 
 def rw_consts(maxticks, tbd, close_late=False):
@@ -73,6 +85,8 @@ def run(ctx):
         "TickBeatsDone is modelled, not provoked: whether a refresh for a tick already pending at Shutdown counts as "
         "'after Shutdown' is not settled by the statement",
         "Shutdown is called once; Start before Shutdown",
+        "Add is not called concurrently with Handle (documented); what the caller does to a slice after Add returned "
+        "must not matter",
     ]
 
     # 1. model checking of the designs.
@@ -80,16 +94,35 @@ def run(ctx):
               properties=["LaterSignalsChangeNothing", "EventuallyReturns"])
     ctx.tlc(d, "SignalHandler", "SigMC_run.cfg", label="signal-mc", timeout=1200)
     # The defect fixed by b5e2710, shown on the design: with PanicAborts the same invariants fail.
+    demos = not q    # the three "expected to fail" variants: shown in the thorough tier
     write_cfg(d / "SigMC_defect.cfg", "SSpec", sig_consts(2, 0, 0, panic_aborts=True), invariants=SIG_INV)
-    r = ctx.tlc(d, "SignalHandler", "SigMC_defect.cfg", label="signal-mc-panic-aborts(expected to fail)",
-                expect_ok=False, count=False)
-    if r.violated != "AtReturn":
-        raise CheckerError("the PanicAborts variant of SignalHandler.tla should violate AtReturn, got %r" % r.violated)
-    ctx.extra["design_level_reproduction_of_b5e2710"] = "AtReturn violated when a panic aborts the loop (as expected)"
+    if demos:
+        r = ctx.tlc(d, "SignalHandler", "SigMC_defect.cfg", label="signal-mc-panic-aborts(expected to fail)",
+                    expect_ok=False, count=False)
+        if r.violated != "AtReturn":
+            raise CheckerError("the PanicAborts variant of SignalHandler.tla should violate AtReturn, got %r"
+                               % r.violated)
+        ctx.extra["design_level_reproduction_of_b5e2710"] = "AtReturn violated when a panic aborts the loop (as expected)"
     # Outcome kinds (errors the code might inspect, panic values): same invariants, kinds as environment choice.
     write_cfg(d / "SigMC_kinds.cfg", "SSpec", sig_consts(3 if q else 4, 0, 1, kinds=True), invariants=SIG_INV,
               properties=["LaterSignalsChangeNothing", "EventuallyReturns"])
     ctx.tlc(d, "SignalHandler", "SigMC_kinds.cfg", label="signal-mc-kinds", timeout=1200)
+    # Registration as actions: every plan of Add calls, the caller reusing / zeroing / overwriting its buffer.
+    write_cfg(d / "SigMC_reg.cfg", "SSpec", sig_consts(3 if q else 4, 0, 0, reg=True, outcomes='{"nil", "err"}'),
+              invariants=SIG_INV, properties=["LaterSignalsChangeNothing", "EventuallyReturns"])
+    ctx.tlc(d, "SignalHandler", "SigMC_reg.cfg", label="signal-mc-registration", timeout=1200)
+    # A handler that keeps the caller's slice (`h.services = svcs` on the first Add), shown on the design.
+    write_cfg(d / "SigMC_alias.cfg", "SSpec",
+              sig_consts(3, 0, 0, reg=True, aliases=True, outcomes='{"nil"}', shut='{"TERM"}'),
+              invariants=["AtMostOnce", "AtReturn"])
+    if demos:
+        r = ctx.tlc(d, "SignalHandler", "SigMC_alias.cfg", label="signal-mc-add-aliases(expected to fail)",
+                    expect_ok=False, count=False)
+        if r.violated not in ("AtMostOnce", "AtReturn"):
+            raise CheckerError("the AddAliases variant of SignalHandler.tla should violate AtMostOnce/AtReturn, "
+                               "got %r" % r.violated)
+        ctx.extra["design_level_registration_check"] = ("%s violated when Add keeps the caller's slice and the caller "
+                                                        "reuses its buffer (as expected)" % r.violated)
     write_cfg(d / "RWMC_run.cfg", "WSpec", rw_consts(4 if q else 6, True), invariants=RW_INV,
               properties=["StoppedIsFinal", "EventuallyStops"])
     ctx.tlc(d, "RefreshWorker", "RWMC_run.cfg", label="refresh-mc", timeout=1200)
@@ -97,12 +130,14 @@ def run(ctx):
     # while the final refresh is in flight starts one more loop refresh.
     write_cfg(d / "RWMC_closelate.cfg", "WSpec", rw_consts(2, True, close_late=True),
               invariants=["NoRefreshAfterShutdown"])
-    r = ctx.tlc(d, "RefreshWorker", "RWMC_closelate.cfg", label="refresh-mc-close-late(expected to fail)",
-                expect_ok=False, count=False)
-    if r.violated != "NoRefreshAfterShutdown":
-        raise CheckerError("the CloseLate variant of RefreshWorker.tla should violate NoRefreshAfterShutdown, got %r"
-                           % r.violated)
-    ctx.extra["design_level_window_check"] = "NoRefreshAfterShutdown violated when done is closed after the final refresh (as expected)"
+    if demos:
+        r = ctx.tlc(d, "RefreshWorker", "RWMC_closelate.cfg", label="refresh-mc-close-late(expected to fail)",
+                    expect_ok=False, count=False)
+        if r.violated != "NoRefreshAfterShutdown":
+            raise CheckerError("the CloseLate variant of RefreshWorker.tla should violate NoRefreshAfterShutdown, "
+                               "got %r" % r.violated)
+        ctx.extra["design_level_window_check"] = ("NoRefreshAfterShutdown violated when done is closed after the "
+                                                  "final refresh (as expected)")
 
     # Development aid (mutation experiments): VERIF_STAGES=T runs only the
     # trace-validation binding, VERIF_STAGES=G only generate-and-replay.
@@ -118,13 +153,18 @@ def run(ctx):
 def run_g(ctx, d, q):
     # 2. generators.
     write_cfg(d / "SigGen_run.cfg", "SGSpec", sig_consts(3 if q else 4),
-              invariants=["SEmit", "AtReturn", "ReverseOrder", "AtMostOnce"])
+              invariants=["SEmit", "Registered", "AtReturn", "ReverseOrder", "AtMostOnce"])
     ctx.tlc(d, "SignalHandlerGen", "SigGen_run.cfg", label="signal-gen", timeout=1200)
     # ... and every outcome-kind vector (full alphabet for <= 2 services, one non-plain kind at a time beyond),
     # with the plain signal scripts (one shutdown signal).
     write_cfg(d / "SigGen_kinds.cfg", "SGSpec", sig_consts(3 if q else 4, 0, 0, kinds=True),
               invariants=["SEmit", "AtReturn", "ReverseOrder", "AtMostOnce"])
     ctx.tlc(d, "SignalHandlerGen", "SigGen_kinds.cfg", label="signal-gen-kinds", timeout=1200)
+    # ... and every registration plan.
+    write_cfg(d / "SigGen_reg.cfg", "SGSpec",
+              sig_consts(4, 0, 0, reg=True, outcomes='{"nil", "err"}', shut='{"TERM"}'),
+              invariants=["SEmit", "Registered", "AtReturn", "ReverseOrder", "AtMostOnce"])
+    ctx.tlc(d, "SignalHandlerGen", "SigGen_reg.cfg", label="signal-gen-registration", timeout=1200)
     write_cfg(d / "RWGen_run.cfg", "WGSpec", rw_consts(5 if q else 8, False),
               invariants=["WEmit", "OneRefreshPerTick", "ErrorsHandledOnce", "ScheduleConsulted",
                           "SequentialNoRefreshAfterShutdown", "DoneClosedFirst", "WindowNeverTicks",
